@@ -228,3 +228,140 @@ Proof.
   repeat (destruct Ha as [<-|Ha]; [|]); try contradiction;
   repeat (destruct Hb as [<-|Hb]; [|]); try contradiction; try reflexivity; discriminate Hid.
 Qed.
+
+(* ------------------------------------------------------------------------------------------------
+   10. Service lives: starts with a populated store, restarts, updates.
+       A participant's nodeconf service is started (Init) with whatever its local store holds: nothing (the app
+       configuration bundled with the binary becomes active), or the configuration saved by an earlier run - into which
+       Init merges the coordinator nodes / coordinator addresses of the app configuration that it lacks; if anything
+       was added the result gets the id "-1" (MERGED_ID), is saved and becomes active.  The running service then
+       receives updates (saved, then set); the process may be restarted any number of times (new service object,
+       same identity, same store).  The nodeConf that answers NodeIds / IsResponsible is stamped with the service's
+       account id when it is installed.  [life self store0 app0 evs] is the service after such a life. *)
+
+(* whatever the life, the answers are computed for the participant ITSELF (the account id is in place before the first
+   nodeConf is installed, and every later one is stamped with it) ... *)
+Theorem c18_life_self : forall self store0 app0 evs, svc_self (life self store0 app0 evs) = self.
+Proof. exact life_self. Qed.
+Print Assumptions c18_life_self.
+
+(* ... so the service's NodeIds / IsResponsible are those of its active configuration asked by the participant *)
+Theorem c18_life_answers : forall PH VH KH self store0 app0 evs space,
+  svc_node_ids PH VH KH (life self store0 app0 evs) space
+    = node_ids PH VH KH (c_nodes (svc_conf (life self store0 app0 evs))) self space /\
+  svc_is_responsible PH VH KH (life self store0 app0 evs) space
+    = is_responsible PH VH KH (c_nodes (svc_conf (life self store0 app0 evs))) self space.
+Proof. exact life_answers. Qed.
+Print Assumptions c18_life_answers.
+
+(* what a (re)start leaves active: the app configuration when nothing is stored; the stored configuration when the app
+   configuration knows no coordinator node/address it lacks; otherwise the merged configuration with id "-1" *)
+Theorem c18_start_nothing_stored : forall self app,
+  svc_conf (svc_init self None app) = app /\ s_store (svc_init self None app) = None.
+Proof. exact svc_init_fresh. Qed.
+Print Assumptions c18_start_nothing_stored.
+
+Theorem c18_start_stored : forall self st app,
+  snd (merge_coord (c_nodes app) (c_nodes st)) = false ->
+  svc_conf (svc_init self (Some st) app) = st /\ s_store (svc_init self (Some st) app) = Some st.
+Proof. exact svc_init_stored. Qed.
+Print Assumptions c18_start_stored.
+
+Theorem c18_start_merged : forall self st app,
+  snd (merge_coord (c_nodes app) (c_nodes st)) = true ->
+  let m := mkConf MERGED_ID (fst (merge_coord (c_nodes app) (c_nodes st))) in
+  svc_conf (svc_init self (Some st) app) = m /\ s_store (svc_init self (Some st) app) = Some m.
+Proof. exact svc_init_merged. Qed.
+Print Assumptions c18_start_merged.
+
+(* the sync nodes of the merged configuration: those of the stored one, followed by the app configuration's coordinator
+   nodes (one per peer id) unknown to the stored one that are ALSO typed "tree" - merging addresses never touches the
+   ring, an appended coordinator changes it only if it is a sync node as well *)
+Theorem c18_merge_sync_nodes : forall app st,
+  tree_ids (fst (merge_coord app st)) = tree_ids st ++ tree_ids (filter (unknown_to st) (coord_entries app)).
+Proof. exact merge_coord_tree_ids. Qed.
+Print Assumptions c18_merge_sync_nodes.
+
+Theorem c18_merge_nothing_to_add : forall app st,
+  snd (merge_coord app st) = false -> fst (merge_coord app st) = st.
+Proof. exact merge_coord_unchanged. Qed.
+Print Assumptions c18_merge_nothing_to_add.
+
+(* merging the same app configuration again adds nothing (every coordinator node / address of the app configuration
+   is in the merged result), so a second restart with the same binary keeps the configuration and the store *)
+Theorem c18_merge_idempotent : forall app st,
+  merge_coord app (fst (merge_coord app st)) = (fst (merge_coord app st), false).
+Proof. exact merge_coord_idempotent. Qed.
+Print Assumptions c18_merge_idempotent.
+
+Theorem c18_restart_again_stable : forall self self' st app,
+  let s1 := svc_init self (Some st) app in
+  svc_conf (svc_init self' (s_store s1) app) = svc_conf s1 /\ s_store (svc_init self' (s_store s1) app) = s_store s1.
+Proof. exact restart_again_stable. Qed.
+Print Assumptions c18_restart_again_stable.
+
+(* only the last session matters, and of everything before it only what the store holds; within a session the
+   configuration evolves as in section 9 *)
+Theorem c18_life_last_session : forall self store0 app0 evs a us,
+  let before := life self store0 app0 evs in
+  svc_conf (life self store0 app0 (evs ++ EStart a :: map EUpd us))
+  = run_history (svc_conf (svc_init self (s_store before) a)) us.
+Proof. exact life_last_session. Qed.
+Print Assumptions c18_life_last_session.
+
+(* THE PROPERTY for participants with arbitrary lives: if the configurations two participants ended up with have the
+   same sync nodes (in particular: the same configuration), ONE member set M - min(rf, n) distinct sync nodes - serves
+   both: NodeIds = M minus self, IsResponsible = (self in M). *)
+Theorem c18_lives_agree : forall PH VH KH,
+  (forall m, VH m <> []) -> PH <> [] ->
+  forall p sp ap ep q sq aq eq_ s,
+    let Lp := life p sp ap ep in
+    let Lq := life q sq aq eq_ in
+    Permutation (tree_ids (c_nodes (svc_conf Lp))) (tree_ids (c_nodes (svc_conf Lq))) ->
+    exists M,
+      NoDup M /\ (forall x, In x M -> In x (tree_ids (c_nodes (svc_conf Lp)))) /\
+      length M = Nat.min REPLICATION_FACTOR (member_count (tree_ids (c_nodes (svc_conf Lp)))) /\
+      svc_node_ids PH VH KH Lp s = Ok (filter (fun m => negb (m =? p)%N) M) /\
+      svc_node_ids PH VH KH Lq s = Ok (filter (fun m => negb (m =? q)%N) M) /\
+      (exists b, svc_is_responsible PH VH KH Lp s = Ok b /\ (b = true <-> In p M)) /\
+      (exists b, svc_is_responsible PH VH KH Lq s = Ok b /\ (b = true <-> In q M)).
+Proof. exact lives_agree. Qed.
+Print Assumptions c18_lives_agree.
+
+(* the answers the correspondence runner computes for participants with lives satisfy the property predicate *)
+Theorem c18_life_model_meets_spec : forall PH VH KH,
+  (forall m, VH m <> []) -> PH <> [] ->
+  forall cfg t (qs : list ((N * option conf * conf * list event) * list N)),
+    table PH VH cfg = Ok t ->
+    spec_C18 cfg REPLICATION_FACTOR
+      (map (fun q => let '(self, st, app, evs) := fst q in
+                     model_obs PH KH t (svc_self (life self st app evs)) (snd q)) qs) = true.
+Proof. exact life_model_meets_spec. Qed.
+Print Assumptions c18_life_model_meets_spec.
+
+(* Non-vacuity.  Stored: ex_cfg under id 5 (coordinator 9 without addresses).  The upgraded binary's app configuration
+   knows an address (77) of coordinator 9 and a new coordinator 8 that is also a sync node.  Restarting sync node 7:
+   the merged configuration has id "-1" (0), the address was added to node 9, node 8 was appended and joined the ring
+   (the table changes), node 7's answers are computed for 7 - it is responsible for "baf.k1" and does not list itself (a client gets 2, 8, 7).
+   A second restart with the same app configuration finds nothing to merge and keeps the stored "-1" configuration;
+   an update with another id replaces it; a restart when stored and app coordinators agree keeps the stored one. *)
+Definition ex_stored : conf := mkConf 5 ex_cfg.
+Definition ex_app : conf := mkConf 6 [mkNode 8 [70] [4; 0]; mkNode 9 [77] [4]; mkNode 3 [] [0]]%N.
+Definition ex_app_same : conf := mkConf 6 [mkNode 9 [] [4]; mkNode 3 [] [0]]%N.
+Example c18_restart_nonvacuous :
+  let s1 := life 7 (Some ex_stored) ex_app [] in
+  let s2 := life 7 (Some ex_stored) ex_app [EStart ex_app] in
+  let s3 := life 7 (Some ex_stored) ex_app [EUpd ex_confB; EStart ex_app_same] in
+  svc_conf s1 = mkConf MERGED_ID
+     [mkNode 4 [1] [0]; mkNode 9 [77] [4]; mkNode 2 [2; 3] [1; 0]; mkNode 7 [] [0]; mkNode 5 [] [8]; mkNode 1 [4] [0; 2];
+      mkNode 8 [70] [4; 0]]%N
+  /\ svc_self s1 = 7%N /\ s_store s1 = Some (svc_conf s1)
+  /\ svc_conf s2 = svc_conf s1
+  /\ svc_conf s3 = ex_confB /\ s_store s3 = Some ex_confB
+  /\ svc_conf (life 7 (Some ex_stored) ex_app_same []) = ex_stored
+  /\ svc_conf (life 7 None ex_app []) = ex_app
+  /\ table ex_PH ex_VH (c_nodes (svc_conf s1)) <> table ex_PH ex_VH ex_cfg
+  /\ svc_node_ids ex_PH ex_VH ex_KH s1 ex_space1 = Ok [2; 8]%N
+  /\ svc_is_responsible ex_PH ex_VH ex_KH s1 ex_space1 = Ok true
+  /\ svc_node_ids ex_PH ex_VH ex_KH (life 100 (Some ex_stored) ex_app []) ex_space1 = Ok [2; 8; 7]%N.
+Proof. vm_compute. repeat split; discriminate. Qed.
